@@ -75,11 +75,14 @@ def run(chk):
             chk.cov["input_distribution"] = {"correspondence": ddoc["kinds"]}
             for f in ddoc["failures"]:
                 failures.append((f, "cases_C18.py"))
+            if ddoc.get("drift"):
+                chk.notes.append("model and implementation differ on malformed inputs outside the theorem hypothesis "
+                                 "(not a violation): " + " || ".join(ddoc["drift"]))
 
     # ---- independent oracle / failing-input search
     n = 4000 if thorough else 260
     if not (proofs_ok and corr_ok):
-        n = max(n, 4000)
+        n = max(n, 2500)
     rc, sdoc, out = chk.bridge_json("search_C18.py", [str(chk.seed), str(n)], timeout=2400)
     if sdoc is None:
         chk.broken.append({"file": "search_C18.py", "item": "oracle harness", "coqc_output": out[-1500:]})
